@@ -53,7 +53,7 @@ def install(E):
     def h_panic(E, m, func, argv, guard, mem, dty, caller):
         E.panic(guard, 'explicit panic: ' + func[:60], caller.fn.name if caller else '?')
         return DIVERGE
-    reg(r'^(core|std)::panicking::|^core::option::(unwrap|expect)_failed|^core::result::unwrap_failed|'
+    reg(r'^(core|std)::panicking::|^panic$|^panic_fmt$|^panic_display::<|^panic_nounwind|^panic_explicit$|^unreachable_display|^core::option::(unwrap|expect)_failed|^core::result::unwrap_failed|'
         r'^std::rt::begin_panic|^core::slice::index::slice_\w+_fail|^core::str::slice_error_fail', h_panic)
 
     # ---- integer methods ---------------------------------------------------
@@ -724,6 +724,69 @@ def install(E):
             return UNIT
         return NotImplemented
     reg(r' as Iterator>::(count|sum|any|all|min|max|fold|next|for_each)(?:::<.*>)?$', h_consume)
+
+    def h_find_map(E, m, func, argv, guard, mem, dty, caller):
+        name = m.group(1)
+        it = argv[0]
+        if isinstance(it, Ref):
+            it = deref(E, it, mem, guard)
+        if not isinstance(it, It):
+            return NotImplemented
+        clo = argv[1]
+        its = items(E, it, guard, mem)
+        # first element (in order) for which the closure yields Some / true
+        found = False
+        result = None
+        notyet = True            # no earlier element matched
+        for p, v in its:
+            if name == 'find':
+                c0 = E.new_cell(); mem[c0] = v
+                res = E.cond_call_closure(clo, [Ref(c0)], guard, And(p, notyet), mem)
+            else:
+                res = E.cond_call_closure(clo, [v], guard, And(p, notyet), mem)
+            if res is DIVERGE:
+                continue
+            r = res[0]
+            if name == 'find_map':
+                if not isinstance(r, En):
+                    raise Unsupported('find_map closure returned %r' % (r,))
+                hit = simp(And(p, notyet, is_some(r)))
+                val = payload(E, r, 1) if 1 in r.vs else None
+            else:
+                hit = simp(And(p, notyet, r.t))
+                val = v
+            if hit is False:
+                continue
+            if result is None:
+                result = val
+            elif val is not None:
+                result = E.merge(hit, val, result)
+            found = Or(found, hit)
+            notyet = And(notyet, Not(hit))
+        if result is None:
+            return opt_none()
+        return mk_opt(E, simp(found), result)
+    reg(r' as Iterator>::(find_map|find)(?:::<.*>)?$', h_find_map)
+
+    def h_opt_eq(E, m, func, argv, guard, mem, dty, caller):
+        a, b = deref(E, argv[0], mem, guard), deref(E, argv[1], mem, guard)
+        if not (isinstance(a, En) and isinstance(b, En)):
+            return NotImplemented
+        sa, sb = simp(is_some(a)), simp(is_some(b))
+        both = And(sa, sb)
+        if simp(both) is False:
+            eqp = True
+        else:
+            pa, pb = payload(E, a, 1), payload(E, b, 1)
+            if isinstance(pa, I) and isinstance(pb, I):
+                eqp = zint(pa.t) == zint(pb.t)
+            elif isinstance(pa, B) and isinstance(pb, B):
+                eqp = zbool(pa.t) == zbool(pb.t)
+            else:
+                return NotImplemented
+        r = Or(And(Not(sa), Not(sb)), And(both, eqp))
+        return B(simp(r) if m.group(1) == 'eq' else simp(Not(r)))
+    reg(r'^<(?:std::option::)?Option<\w+> as PartialEq>::(eq|ne)$', h_opt_eq)
 
     def h_iter_next(E, m, func, argv, guard, mem, dty, caller):
         r = argv[0]
